@@ -659,6 +659,11 @@ class HTTPResponse(BaseHTTPResponse):
         if not self._pool or not self._connection:
             return None
 
+        # The rest of a response that was not read to its end is still on (or still
+        # on its way to) this connection: it must not be handed to another request.
+        if self._fp is not None and not is_fp_closed(self._fp):
+            self._connection.close()
+
         self._pool._put_conn(self._connection)
         self._connection = None
 
